@@ -652,6 +652,7 @@ class LanczosGroundState(KrylovBased):
         """
         h = self._h_krylov
         w = self.psi0  # initialize
+        self._cache = []  # drop the vectors of a previous run() (left by the rebuild for N_cache < N)
         beta = npc.norm(w)
         if beta < self._cutoff:
             raise ValueError(f'Norm of self.psi0 too small: {beta}')
